@@ -193,9 +193,9 @@ MANIFEST_TEXT = {
         note="Trusted: Lean kernel; hooks + dump; the IERS date list and Semtech formula as transcribed; integer model of time.Time; the exact-float model. One genuine defect repaired (leap boundary one second early). sensitivity.go carries no clause and is not modelled.",
         technique="Lean 4 proof (induction over the leap table, kernel evaluation of an exact float model, monotonicity) + differential correspondence"),
     "C09": dict(
-        text="Lean theorems for EVERY byte string: C09_phy_total / C09_macpayload_total / C09_fhdr_total (the Go index expressions, transcribed with panicking slice / index primitives, never leave the buffer and equal the total decoders), "
+        text="Lean theorems for EVERY byte string: C09_phy_total / C09_macpayload_total / C09_fhdr_total / C09_joinaccept_total (join-accept payload and both CFList kinds) (the Go index expressions, transcribed with panicking slice / index primitives, never leave the buffer and equal the total decoders), "
              "C09_stream_total (cursor arithmetic of the MAC-command loop, any registry with non-negative sizes) + C09_generated_registry_nonneg, C09_app_offsets_total (offsets derived from mask / status bits), C09_app_streams_total, C09_app_payloads_total. "
-             "The harness runs every decoder entry point on generated, mutated and exhaustive-small inputs and reports PANIC, HANG and writes to the input buffer; the driver cross-checks the transcriptions against the total decoders on every op.",
+             "The harness runs every decoder entry point (and the 25 sub-structure decoders directly) on generated, mutated, extremal and exhaustive-small inputs, first on exact-capacity buffers and then on guarded ones, and reports PANIC, HANG, capacity-dependent results and writes to the input buffer; the driver cross-checks the transcriptions against the total decoders on every op.",
         note="PARTIAL: running time (only a 10 s watchdog), writes to the input buffer, base64 and json.Unmarshal of the payload structs are observed, not proved. The transcription of the index expressions is by hand. "
              "Panics found earlier by this machinery and repaired are listed under C07 / C12 / C15 / C17 / C18 / C19.",
         technique="Lean 4 proof (bounds of every index expression; checked = total decoder) + differential correspondence with panic / hang / input-write observation"),
